@@ -119,6 +119,39 @@ def _pure_method_call(N, call) -> bool:
     return isinstance(call.node, N.Getattr) and call.node.attr in _PURE_METHODS and call.dyn_args is None and call.dyn_kwargs is None
 
 
+_CANON = None
+
+
+def canonical_params(N, ast, lang: str, kind: str, name: str) -> int:
+    """Normalisation applied to every parsed template: the parameters of the macros the rules talk about are given the names the
+    rules use (frozen in canon_params.json, by macro and position).  Renaming a parameter in a macro signature - `t` to
+    `array_type`, `n_bits` to `alignment_bits` - therefore changes nothing for any rule; a macro whose arity differs from the
+    table, or that is not in it (a new helper), is left as it is."""
+    global _CANON
+    if _CANON is None:
+        import json
+        _CANON = json.loads((pathlib.Path(__file__).parent / "canon_params.json").read_text())
+    total = 0
+    for m in ast.find_all(N.Macro):
+        want = _CANON.get(f"{lang}/{kind}/{name}:{m.name}")
+        have = [a.name for a in m.args]
+        if want is None or len(want) != len(have) or want == have:
+            continue
+        nodes = [m] + _scope_nodes(N, m)
+        used = {x.name for x in m.find_all(N.Name)} | set(have)
+        # two steps through temporaries so that swaps and collisions with other locals are harmless
+        tmp = {h: f"__p{i}__" for i, h in enumerate(have)}
+        clash = [w for w, h in zip(want, have) if w != h and w in used and w not in have]
+        if clash:
+            continue      # the canonical name is taken by another variable of this macro: leave the macro alone
+        for mapping in (tmp, {tmp[h]: w for h, w in zip(have, want)}):
+            for x in list(m.find_all(N.Name)) + list(m.args):
+                if x.name in mapping:
+                    x.name = mapping[x.name]
+        total += 1
+    return total
+
+
 def inline_single_sets(N, ast) -> int:
     """Normalisation applied to every parsed template: inside each macro, a template variable that is assigned exactly once
     (`{% set x = expr %}`), is not a parameter or loop variable, and whose expression is pure (no macro call, no
@@ -224,6 +257,7 @@ class TemplateSet:
             except Exception as e:
                 raise AnalysisError(f"template {p} does not parse with the bundled parser: {type(e).__name__}: {e}")
             rel = p.relative_to(self.root).as_posix()
+            canonical_params(self.nodes, ast, lang, kind, p.name)
             if os.environ.get("NVSA_J2_NOINLINE") != "1":
                 inline_single_sets(self.nodes, ast)
             if os.environ.get("NVSA_J2_EQUIV") == "1":
